@@ -18,6 +18,7 @@ import Kap.Proofs.C05
 import Kap.Proofs.C05Udf
 import Kap.Proofs.C05Bnd
 import Kap.Proofs.C05Term
+import Kap.Proofs.C05Part
 import Kap.Spec.C05
 import Kap.Gen.C05
 namespace Kap.Props.C05
@@ -66,14 +67,23 @@ theorem lexer_single_terminal (c : Ctx) (hf : c.fixed = true) (toks : List Tok) 
     exact LexOut.done.inj this
   refine ⟨ts.reverse, t, by rw [e]; simp, fun u hu => h1 u (List.mem_reverse.mp hu), h2⟩
 
-/-- Full strength of "tokens partition the input" = `Kap.C05.lexSpec` holds of the model's own token stream.
-Proved of it: in range, ordered, no overlap (`lexer_in_bounds`), on rune boundaries (`lexer_rune_boundaries`),
-exactly one terminal token at the end, EOF at the end of the input (`lexer_single_terminal`). Still missing:
-(i) the gaps between tokens are WHITE SPACE only (needs `decodeRune` on a truncated gap = on the full
-input), (ii) no operator token is typed `TokenError` (needs the bytes of `l.current()` in the operator
-states). Both are evaluated by `lexSpec` on the implementation's token stream for every generated input. -/
-def lexer_partition_stmt : Prop :=
-  ∀ c : Ctx, c.fixed = true → ∀ toks, lexRun c = .done toks → lexSpec c (.toks toks true) = none
+/-- **Tokens partition the input** (full strength): the property's own check `Kap.C05.lexSpec` — the walk
+that the driver runs over the IMPLEMENTATION's token stream — accepts the model's token stream for every
+input: tokens in order inside the input, the gaps between them WHITE SPACE only, no operator token typed
+`TokenError`, exactly one terminal token, EOF with empty text at the end of the input. -/
+theorem lexer_partition (c : Ctx) (hf : c.fixed = true) (toks : List Tok) (h : lexRun c = .done toks) :
+    lexSpec c (.toks toks true) = none := by
+  have hg : Good c {} := ⟨rfl, by simp, by simp, by simp [Ctx.len], ⟨by simp, by simp⟩⟩
+  have hP : PI c {} := ⟨0, fun rest => by simp, by simp, SpaceRun.nil 0⟩
+  obtain ⟨toks', h', hp⟩ := run_part c hf (lexFuel c) {} .token hg trivial hP rfl (by simp [mu, rank, lexFuel, Ctx.len])
+  have e : toks = toks' := by
+    have : LexOut.done toks = LexOut.done toks' := by rw [← h, ← h']; rfl
+    exact LexOut.done.inj this
+  subst e
+  simpa [lexSpec] using hp
+
+example : lexSpec { inp := [0x61, 0x20, 0x2F, 0xC3, 0xA9, 0x2F], cls := Cls.none }
+    (.toks [⟨tIdent, 0, some 1⟩, ⟨tDiv, 2, some 1⟩, ⟨tError, 3, none⟩] true) = none := by decide
 
 /-- **On rune boundaries**: every token starts and ends where a rune of the input starts (offsets reached
 from 0 by decoding one rune after the other, `Bnd`) — no token ever cuts a multi-byte rune, which is what
